@@ -61,7 +61,12 @@ func b2Sequences(tier string) [][]b2Spec {
 
 func buildHelper(rc *runCtx) (string, error) {
 	out := filepath.Join(rc.work, "storehelper")
-	cmd := exec.Command(goTool(), "build", "-o", out, "./cmd/storehelper")
+	args := []string{"build", "-o", out}
+	if modFile != "" {
+		args = append(args, "-modfile="+modFile)
+	}
+	args = append(args, "./cmd/storehelper")
+	cmd := exec.Command(goTool(), args...)
 	cmd.Dir = verifDir
 	cmd.Env = goEnv()
 	if b, err := cmd.CombinedOutput(); err != nil {
